@@ -53,6 +53,8 @@ struct Ans {
     ans: String,
     e: u64,
     variant: u32,
+    /// node-side facts logged with the event (honest node: nx, inflight, unrep)
+    facts: Value,
 }
 
 #[derive(Clone, Copy, PartialEq, Eq, Debug)]
@@ -75,6 +77,10 @@ impl Kind {
 struct Pending {
     sub: u64,
     kind: Kind,
+    /// signed sequence (est, bcast)
+    q: u64,
+    /// number of the byte string (bcast, status)
+    txid: u64,
     tx: oneshot::Sender<Ans>,
 }
 
@@ -95,13 +101,14 @@ impl World {
     fn ev(&self, v: Value) {
         self.log.lock().unwrap().push(v);
     }
-    fn txid(&self, bytes: &[u8]) -> (u64, String) {
+    fn txid(&self, bytes: &[u8]) -> (u64, String, bool) {
         let mut m = self.txids.lock().unwrap();
         let n = m.len() as u64 + 1;
         let id = *m.entry(bytes.to_vec()).or_insert(n);
+        let fresh = id == n;
         let hash = hex::encode_upper(Sha256::digest(bytes));
         self.hashes.lock().unwrap().insert(hash.clone(), id);
-        (id, hash)
+        (id, hash, fresh)
     }
 }
 
@@ -208,10 +215,10 @@ fn draw_answer(kind: Kind, q: u64, rng: &mut StdRng, force_end: bool) -> Ans {
             else { ("unknown", 0) }
         }
     };
-    Ans { ans: ans.into(), e, variant }
+    Ans { ans: ans.into(), e, variant, facts: Value::Null }
 }
 
-async fn obtain(w: &Arc<World>, sub: u64, kind: Kind, q: u64) -> Ans {
+async fn obtain(w: &Arc<World>, sub: u64, kind: Kind, q: u64, txid: u64) -> Ans {
     if let Some(rng) = &w.auto {
         for _ in 0..(q % 3) {
             tokio::task::yield_now().await;
@@ -225,8 +232,8 @@ async fn obtain(w: &Arc<World>, sub: u64, kind: Kind, q: u64) -> Ans {
         return draw_answer(kind, q, &mut rng.lock().unwrap(), left == 0);
     }
     let (tx, rx) = oneshot::channel();
-    w.pending.lock().unwrap().push(Pending { sub, kind, tx });
-    rx.await.unwrap_or(Ans { ans: "err".into(), e: 0, variant: 0 })
+    w.pending.lock().unwrap().push(Pending { sub, kind, q, txid, tx });
+    rx.await.unwrap_or(Ans { ans: "err".into(), e: 0, variant: 0, facts: Value::Null })
 }
 
 fn node_handler(w: Arc<World>) -> Handler {
@@ -249,22 +256,28 @@ fn node_handler(w: Arc<World>) -> Handler {
                 "/celestia.core.v1.gas_estimation.GasEstimator/EstimateGasPriceAndUsage" => {
                     let r = EstimateGasPriceAndUsageRequest::decode(req.msg.as_slice()).unwrap_or_default();
                     let q = signed_sequence(&r.tx_bytes).unwrap_or(u64::MAX);
-                    let a = obtain(&w, sub, Kind::Est, q).await;
+                    let a = obtain(&w, sub, Kind::Est, q, 0).await;
                     w.ev(json!({"name":"est","s":sub,"q":q,"ans":a.ans,"e":a.e,"tx":0,"variant":a.variant}));
                     est_reply(&a, q)
                 }
                 "/cosmos.tx.v1beta1.Service/BroadcastTx" => {
                     let r = BroadcastTxRequest::decode(req.msg.as_slice()).unwrap_or_default();
                     let q = signed_sequence(&r.tx_bytes).unwrap_or(u64::MAX);
-                    let (id, hash) = w.txid(&r.tx_bytes);
-                    let a = obtain(&w, sub, Kind::Bcast, q).await;
-                    w.ev(json!({"name":"bcast","s":sub,"q":q,"ans":a.ans,"e":a.e,"tx":id,"variant":a.variant,"len":r.tx_bytes.len()}));
+                    let (id, hash, fresh) = w.txid(&r.tx_bytes);
+                    let a = obtain(&w, sub, Kind::Bcast, q, id).await;
+                    let mut ev = json!({"name":"bcast","s":sub,"q":q,"ans":a.ans,"e":a.e,"tx":id,"variant":a.variant,"len":r.tx_bytes.len(),"fresh":fresh as u8});
+                    if let Value::Object(f) = &a.facts {
+                        for (k, v) in f {
+                            ev[k] = v.clone();
+                        }
+                    }
+                    w.ev(ev);
                     bcast_reply(&a, q, &hash)
                 }
                 "/celestia.core.v1.tx.Tx/TxStatus" => {
                     let r = TxStatusRequest::decode(req.msg.as_slice()).unwrap_or_default();
                     let id = w.hashes.lock().unwrap().get(&r.tx_id.to_uppercase()).copied().unwrap_or(0);
-                    let a = obtain(&w, sub, Kind::Status, id).await;
+                    let a = obtain(&w, sub, Kind::Status, id, id).await;
                     w.ev(json!({"name":"status","s":sub,"q":0,"ans":a.ans,"e":0,"tx":id,"variant":a.variant}));
                     status_reply(&a)
                 }
@@ -411,7 +424,7 @@ async fn replay_one(case: &Value, rng: &mut StdRng) -> (Vec<Value>, Vec<String>)
         };
         match take_pending(&st.w, s, kind) {
             Some(p) => {
-                let a = Ans { ans: ev["ans"].as_str().unwrap().to_string(), e: ev["e"].as_u64().unwrap(), variant: rng.r#gen() };
+                let a = Ans { ans: ev["ans"].as_str().unwrap().to_string(), e: ev["e"].as_u64().unwrap(), variant: rng.r#gen(), facts: Value::Null };
                 let _ = p.tx.send(a);
                 quiesce().await;
             }
@@ -425,7 +438,7 @@ async fn replay_one(case: &Value, rng: &mut StdRng) -> (Vec<Value>, Vec<String>)
             Some(p) => {
                 notes.push(format!("submission {}: {} request beyond the schedule", p.sub, p.kind.name()));
                 let ans = if p.kind == Kind::Status { "committed" } else { "err" };
-                let _ = p.tx.send(Ans { ans: ans.into(), e: 0, variant: 0 });
+                let _ = p.tx.send(Ans { ans: ans.into(), e: 0, variant: 0, facts: Value::Null });
                 quiesce().await;
             }
             None => break,
@@ -539,6 +552,111 @@ async fn record_gated(q0: u64, use_est: bool, subs: u64, conc: usize, rng: &mut 
     log
 }
 
+/// The honest node of spec/TxPipeline.tla: committed sequence, mempool, verdicts.
+struct HonestNode {
+    nseq: u64,
+    pool: Vec<(u64, u64)>,              // (txid, q)
+    verdict: HashMap<u64, &'static str>, // txid -> committed | rej-other | rej-seq
+    owner: HashMap<u64, u64>,           // txid -> submission
+}
+
+/// Pipelined rounds against the honest node: up to 3 submissions in flight, blocks with any rejection point,
+/// verdicts reported in any order; a new transaction is started only when no rejection is outstanding.
+async fn record_honest(q0: u64, subs: u64, rng: &mut StdRng) -> Vec<Value> {
+    let st = setup(q0, None);
+    let mut node = HonestNode { nseq: q0, pool: vec![], verdict: HashMap::new(), owner: HashMap::new() };
+    let mut handles = vec![];
+    let mut next = 1u64;
+    let mut round_left = rng.gen_range(1..=3u64).min(subs);
+    let mut guard = 0;
+    loop {
+        guard += 1;
+        let ended: Vec<u64> = st.w.log.lock().unwrap().iter().filter(|e| e["name"] == "end").map(|e| e["s"].as_u64().unwrap()).collect();
+        let active = (next - 1) - ended.len() as u64;
+        // a rejection whose submission has not returned yet
+        let unrep = node.verdict.iter().any(|(t, v)| *v != "committed" && !ended.contains(node.owner.get(t).unwrap_or(&0)));
+        let (n_b, n_s, npend) = {
+            let p = st.w.pending.lock().unwrap();
+            (p.iter().filter(|x| x.kind == Kind::Bcast).count(), p.iter().filter(|x| x.kind == Kind::Status).count(), p.len())
+        };
+        if active == 0 && round_left == 0 {
+            // round over: the next round starts with the probe
+            if next > subs {
+                break;
+            }
+            round_left = rng.gen_range(1..=3u64).min(subs - next + 1);
+        }
+        let can_begin = round_left > 0 && next <= subs && !unrep;
+        // a block only when every active submission waits for a status (nothing is being prepared)
+        let can_block = !node.pool.is_empty() && n_s as u64 == active && n_b == 0;
+        if guard > 3000 || (!can_begin && npend == 0 && !can_block) {
+            if active != 0 {
+                st.w.ev(json!({"name":"stuck","running":active}));
+            }
+            break;
+        }
+        let roll: f64 = rng.r#gen();
+        if can_begin && (npend == 0 && !can_block || roll < 0.35) {
+            handles.push(spawn_sub(&st, next, false));
+            next += 1;
+            round_left -= 1;
+        } else if can_block && (npend == 0 || roll < 0.55 || (n_b == 0 && roll < 0.7)) && !(can_begin && roll >= 0.9) {
+            // k = 0: all commit; otherwise the k-th is rejected for a non-sequence reason, the rest for their sequence
+            let len = node.pool.len() as u64;
+            let k = if rng.gen_bool(0.45) { 0 } else { rng.gen_range(1..=len) };
+            for (i, (t, _)) in node.pool.iter().enumerate() {
+                let i = i as u64 + 1;
+                node.verdict.insert(*t, if k == 0 || i < k { "committed" } else if i == k { "rej-other" } else { "rej-seq" });
+            }
+            node.nseq += if k == 0 { len } else { k - 1 };
+            node.pool.clear();
+            st.w.ev(json!({"name":"block","s":0,"q":k,"ans":"","e":0,"tx":0,"nseq":node.nseq}));
+            continue;
+        } else if npend > 0 {
+            let p = {
+                let mut pend = st.w.pending.lock().unwrap();
+                let i = rng.gen_range(0..pend.len());
+                pend.remove(i)
+            };
+            let variant: u32 = rng.r#gen();
+            let a = match p.kind {
+                Kind::Bcast => {
+                    let nx = node.nseq + node.pool.len() as u64;
+                    let facts = json!({"nx": nx, "inflight": node.pool.len(), "unrep": unrep as u8});
+                    if node.pool.iter().any(|x| x.0 == p.txid) {
+                        Ans { ans: "cached".into(), e: 0, variant, facts }
+                    } else if p.q == nx {
+                        node.pool.push((p.txid, p.q));
+                        node.owner.insert(p.txid, p.sub);
+                        Ans { ans: "ok".into(), e: 0, variant, facts }
+                    } else {
+                        Ans { ans: "mismatch".into(), e: nx, variant, facts }
+                    }
+                }
+                Kind::Status => {
+                    let ans = match node.verdict.get(&p.txid) {
+                        None => "pending",
+                        Some(&"committed") => "committed",
+                        Some(&"rej-other") => "rejected-other",
+                        Some(_) => "rejected-seq",
+                    };
+                    Ans { ans: ans.into(), e: 0, variant, facts: Value::Null }
+                }
+                Kind::Est => Ans { ans: "ok".into(), e: 0, variant, facts: Value::Null },
+            };
+            let _ = p.tx.send(a);
+        } else {
+            continue;
+        }
+        quiesce().await;
+    }
+    for h in handles {
+        let _ = tokio::time::timeout(Duration::from_secs(5), h).await;
+    }
+    let log = st.w.log.lock().unwrap().clone();
+    log
+}
+
 async fn record_free(q0: u64, use_est: bool, subs: u64, seed: u64, rng: &mut StdRng) -> Vec<Value> {
     let st = setup(q0, Some(seed));
     let mut next = 1u64;
@@ -573,7 +691,9 @@ pub fn record(args: &Args) {
     for run in 0..runs {
         let q0 = rng.gen_range(0..40u64);
         let conc = rng.gen_range(1..=3usize);
-        let log = if mode == "free" {
+        let log = if mode == "honest" {
+            rt.block_on(record_honest(q0, subs, &mut rng))
+        } else if mode == "free" {
             rt.block_on(record_free(q0, est, subs, seed.wrapping_mul(7919).wrapping_add(run), &mut rng))
         } else {
             rt.block_on(record_gated(q0, est, subs, conc, &mut rng))
